@@ -119,7 +119,21 @@ fn rel_spellings(from: &str, to: &str, rng: Option<&mut Rng>) -> String {
     let dotted = if canonical.starts_with("..") { canonical.clone() } else { format!("./{canonical}") };
     match rng {
         None => dotted,
-        Some(r) => match r.below(6) {
+        Some(r) => match r.below(9) {
+            // absolute spellings: plain, and with a `..` that normalisation has to remove
+            6 => to.to_string(),
+            7 => {
+                if td.len() >= 2 {
+                    let mut v: Vec<String> = td.iter().map(|s| s.to_string()).collect();
+                    let k = r.below(td.len() - 1);
+                    v.insert(k + 1, "..".into());
+                    v.insert(k + 2, td[k].to_string());
+                    format!("/{}", v.join("/"))
+                } else {
+                    format!("/zz/../{}", td.join("/"))
+                }
+            }
+            8 => format!("/{}/./{}", fd[..fd.len() - 1].join("/"), dotted).replace("//", "/"),
             0 => canonical,                                                     // "f1.graphql" (no ./ prefix)
             1 if !fdir.is_empty() => format!("../{}/{}", fdir[fdir.len() - 1], canonical), // up and down again
             2 => format!("./x/../{canonical}"),
